@@ -83,6 +83,31 @@ def compare(v, text, exp, tup, typ):
     return None
 
 
+def _from_file(v, text, exp):
+    import os
+    import shutil
+    import tempfile
+    from scinumtools.dip import DIP, Format
+    tmp = tempfile.mkdtemp(prefix="svc13_")
+    try:
+        path = os.path.join(tmp, "input.dip")
+        with open(path, "w", newline="") as f:
+            f.write(text)
+        try:
+            with DIP(name=f"c13_{next(_uid)}") as p:
+                p.add_file(path)
+                env = p.parse()
+            tup, typ = env.data(Format.TUPLE), env.data(Format.TYPE)
+        except Exception as e:
+            return v.fail("parse-raised", f"add_file() of the same text raised {e!r}:\n{text}")
+        if compare(v, "[read with add_file]\n" + text, exp, tup, typ) is not None:
+            return True
+    finally:
+        shutil.rmtree(tmp, ignore_errors=True)
+    v.label("same_text_from_file")
+    return None
+
+
 def _rounds(case, v, lines, exp):
     from scinumtools.dip import DIP, Environment, Format
     cuts = [i for i, ln in enumerate(lines) if i > 0 and ln["k"] in ("group", "def") and ln["indent"] == 0]
@@ -160,6 +185,10 @@ def _check(case, v):
     except Exception as e:
         return v.fail("parse-raised", f"parse raised {e!r} after removing blank/comment lines and scaling indents:\n{text2}")
     if compare(v, text2, exp, tup2, typ2) is not None or v.violations:
+        return
+    # the same text read from a file (add_file) gives the same parameters as the string
+    # (a carriage return inside a file is a line ending for Python's text mode: only compared through add_string)
+    if "\r" not in text and (_from_file(v, text, exp) is not None or v.violations):
         return
     # histories: the same parser object fed in two rounds, and one empty base environment shared by two parsers
     if _rounds(case, v, lines, exp) is not None or v.violations:
